@@ -19,11 +19,13 @@ package ice
 //@   props C15
 //@   requires conn != nil
 //@   requires mux-tables-exist: m != nil ==> m.connsIPv4 != nil && m.connsIPv6 != nil
+//@   requires a-freshly-accepted-connection-is-not-registered-yet: !has(m.pending, conn)
 //@   ghostvar closedCount int = 0
 //@   ghostvar attached bool = false
 //@   ghostvar parts0 int = 0
 //@   loop 1 invariant still-owned: closedCount == 0 && !attached
 //@   site call readStreamingPacket#1 assert first-frame-is-read-from-this-conn: arg0 == conn && arg1 == buf
+//@   site call readStreamingPacket#1 assert while-it-waits-for-the-first-frame-the-connection-is-within-reach-of-close: has(m.pending, conn)
 //@   site call closeAndLogError#0 assert closes-this-conn-at-most-once: arg1.payload == conn.payload && closedCount == 0 && !attached
 //@   site call closeAndLogError#0 ghost closedCount := closedCount + 1
 //@   site call Get#1 assert only-stun-binding-reaches-the-username-lookup: msg.Type.Method == stun.MethodBinding && arg1 == stun.AttrUsername
@@ -39,6 +41,7 @@ package ice
 //@   site call AddConn#1 assert attaches-this-conn-with-its-first-frame: arg0 == packetConn && arg1 == conn && arg2.base == buf.base && len(arg2) == n && closedCount == 0
 //@   site call AddConn#1 ghost attached := result == nil
 //@   ensures closed-once-or-attached: (closedCount == 1 && !attached) || (closedCount == 0 && attached)
+//@   ensures a-connection-that-was-attached-or-closed-is-no-longer-pending: !has(m.pending, conn)
 
 // A provisional connection (created for an unknown ufrag by an incoming TCP
 // connection) expires unless the user claims it: only GetConnByUfrag clears the
@@ -111,7 +114,8 @@ package ice
 //@   props C15
 //@   opt nosafety
 //@   site call closeAndLogError#0 assert closes-only-registered-connections: arg1.payload == conn
-//@   site call Close#1 assert closes-the-listener: recv == m.params.Listener
+//@   site call Close#1 assert closes-every-connection-still-awaiting-its-first-frame: recv == conn && has(m.pending, conn)
+//@   site call Close#2 assert closes-the-listener: recv == m.params.Listener
 //@   ensures closed-and-emptied: m.closed && len(m.connsIPv4) == 0 && len(m.connsIPv6) == 0
 
 // Every store to the mux's closed flag and tables is in the functions above.
